@@ -384,7 +384,14 @@ def _do_rewrite(source: str, rewrite: _Rewrite, *, fix_function_name: str = "") 
 
         if new_code and isinstance(new, ast.stmt):
             new_code = new_code.rstrip() + "\n"
-            if isinstance(old, core.Range):
+            if isinstance(old, core.Range) and old.start == old.end == len(source):
+                # Inserted below the last line. There is no existing indentation to take over,
+                # so the statement is indented to the column it asks for.
+                new_code = textwrap.indent(new_code, " " * getattr(new, "col_offset", 0))
+                if source and not source.endswith("\n"):
+                    new_code = "\n" + new_code
+
+            elif isinstance(old, core.Range):
                 before = source[: old.end].expandtabs()
                 if before:
                     last_line = before.splitlines()[-1]
